@@ -8,6 +8,11 @@ VERIF = os.path.dirname(os.path.dirname(os.path.abspath(__file__)))
 
 # pid -> (category, text, design_ref, level_note, technique)
 CHECKS = {
+    'C01': ('other',
+            'Exhaustive enumeration of every panic-capable construct in evalexpr code (MIR Assert terminators, diverging calls, indirect calls, and call/drop/vtable edges into std whose transitive std MIR reaches a panic leaf outside a reviewed trusted-leaf table), found by a monomorphic instantiation walk from every local function over the default numeric types and the three provided contexts; each site must be discharged by a structural guard rule re-validated on every run (arity guard dominance, fixed/ranged tuple length, non-empty slice, stack/pop pairing, discriminant-set infeasibility, tokenizer cutoff path enumeration, constant radix/arith) or by a listed manual entry. New unguarded unwrap/index/arithmetic/shift anywhere in the crate fails. Thorough tier: overflow checks on and off, features regex/rand/serde.',
+            'DESIGN.md §4 C01',
+            'Trusted: nightly std MIR standing in for the pinned toolchain\'s std; trusted-std-leaf table (rules/c01_trust.py); one manual invariant (M-seq) for two unreachable!() in tokens_to_operator_tree; user functions do not panic. Not decided: stack exhaustion (recursion depth is a run-time quantity), memory exhaustion.',
+            'whole-program panic-site enumeration over MIR (monomorphic reachability into std) + dominance/provenance guard rules'),
     'C02': ('other',
             'Clause level: the tables the tree builder consults (precedence order for all 351 pairs of documented operators, associativity, arity, prefix/binary split, char->token->operator symbol chain, operand-boundary sets) are extracted from MIR for every enum variant and compared with the documented table. The insertion/rotation algorithm itself is not decided.',
             'DESIGN.md §4 C02',
